@@ -19,14 +19,14 @@ from ..core.framework import Ctx, b2s, s2b
 
 SPEC = {
     "modules": ["HC.Props.C11", "HC.Pure.Sha1"],
-    "extracted": ["Guards"],
+    "extracted": ["Guards", "WsGuards"],
     "technique": "Lean 4: Handshake(headers) characterised as a function of the LAST occurrence of each header (scan = merge, by induction over arbitrary header lists), is_valid <-> a declarative validSpec over the header list for both carriers, onRequest 400/no-app vs connect-first, accept rendering = explicit header list with the token instantiated by an executable SHA-1/base64 (RFC 6455 sample checked by kernel evaluation), refused accept = no-op, 403, denial response by induction over body chunks, disconnect code per closing order; tied by differential runs of the real WSStream over the exhaustive header-presence lattice and by end-to-end runs on asyncio+trio over HTTP/1.1 and HTTP/2 with an independent wsproto client",
-    "level_text": "Proved in Lean for ALL header lists (any length, duplicates, any case) and both carriers: Handshake(headers, v).is_valid() = True iff validSpec (last occurrence of each header, names case-insensitive; Connection a comma list with an `upgrade` token in any case; Upgrade = websocket in any case; Sec-WebSocket-Version exactly 13; a key on HTTP/1.1; never below 1.1) and every token-list header ASCII - is_valid_iff (no side condition) / is_valid_false_iff / non_ascii_is_400, with the one remaining raise-instead-of-400 boundary as a theorem (missing_upgrade_raises, unreachable through H11Protocol); invalid => 400 + closed + nothing put, ever (invalid_400_no_app, never_started_never_put); valid => exactly [websocket.connect] put and nothing written (valid_connect_first); accept => 101/200 with [subprotocol iff given (and then offered)] ++ [extensions] ++ [sec-websocket-accept = base64(sha1(key ++ GUID))] ++ [upgrade, connection on 1.1] ++ validated extra headers (accept_rendered, accept_ok_iff, accept_sent, accept_token_rfc6455), refused accept = state and wire untouched (accept_refused_is_noop); close => 403 (close_403); HTTP-response extension => exactly that status/headers/body chunks/end once (http_response_exact); disconnect code 1000 iff CLOSED/HTTPCLOSED else 1006 (disconnect_code), 1000 after the application's close (app_close_1000, simultaneous_close_1000), 1006 when lost (lost_1006).  disconnect_code_client_close: after a client-initiated close the application is told the client's code (1005 if none); non_ascii_is_400: a non-ASCII token-list header makes the handshake invalid instead of raising (F13 and F33 were repaired in the repository).",
+    "level_text": "Proved in Lean for ALL header lists (any length, duplicates, any case) and both carriers: Handshake(headers, v).is_valid() = True iff validSpec (last occurrence of each header, names case-insensitive; Connection a comma list with an `upgrade` token in any case; Upgrade = websocket in any case; Sec-WebSocket-Version exactly 13; key / Connection / Upgrade demanded for EVERY version string other than '2' / '3', i.e. whatever an HTTP/1 request line states - the tests over self.http_version are extracted from is_valid and accept (WsGuards.versionRefused / http1Handshake / http1Accept; version_refused_iff, http1_handshake_iff, http1_accept_iff, accept_test_is_valid_test); never below 1.1) and every token-list header ASCII; for every version h11 can hand over (d.d: h11_version_not_multiplexed) a handshake lacking key / Connection: upgrade / Upgrade: websocket is refused with 400 and no application (h1_incomplete_refused, h1_incomplete_400_no_app - the clause F102 broke for 1.2, 2.0, 9.9 ...), a complete one is valid iff the version is not below 1.1 (h1_complete_valid_iff) and its accept is a 101 with upgrade / connection (h1_accept_is_101); header names matched case-insensitively because Handshake.__init__ lower-cases them (handshake_names_lowercased over the extracted WsGuards.handshakeName) - is_valid_iff (no side condition) / is_valid_false_iff / non_ascii_is_400, with the one remaining raise-instead-of-400 boundary as a theorem (missing_upgrade_raises, unreachable through H11Protocol); invalid => 400 + closed + nothing put, ever (invalid_400_no_app, never_started_never_put); valid => exactly [websocket.connect] put and nothing written (valid_connect_first); accept => 101/200 with [subprotocol iff given (and then offered)] ++ [extensions] ++ [sec-websocket-accept = base64(sha1(key ++ GUID))] ++ [upgrade, connection on 1.1] ++ validated extra headers (accept_rendered, accept_ok_iff, accept_sent, accept_token_rfc6455), refused accept = state and wire untouched (accept_refused_is_noop); close => 403 (close_403); HTTP-response extension => exactly that status/headers/body chunks/end once (http_response_exact); disconnect code 1000 iff CLOSED/HTTPCLOSED else 1006 (disconnect_code), 1000 after the application's close (app_close_1000, simultaneous_close_1000), 1006 when lost (lost_1006).  disconnect_code_client_close: after a client-initiated close the application is told the client's code (1005 if none); non_ascii_is_400: a non-ASCII token-list header makes the handshake invalid instead of raising (F13 and F33 were repaired in the repository).",
     "level_note": "Trusted: Lean kernel; model HC/Stream/Ws.lean tied by differential runs; wsproto's extension negotiation result is a parameter of the model (taken from the run), its connection-state machine is modelled (connSend / connRecvClose) and sampled; H11Protocol's / H2Protocol's routing (which requests reach a WSStream) is exercised end to end only; HC.Pure.Sha1 is compared on every run with wsproto.utilities.generate_accept_token and with wsproto's own client handshake.",
-    "rule": "direct: exhaustive lattice over {connection, upgrade, key, version} x 6 states x HTTP version {1.0, 1.1, 2}, random subprotocol/extension offers, application decision sequences up to length 4 over the websocket send alphabet, closing orders {client first (1000, 1001, 3000, no code), application first, simultaneous, abrupt}; e2e: handshake classes x decisions x closing orders x carrier x worker, and the upgrade as the k-th request of its connection below / at keep_alive_max_requests (1, 2, 3) incl. wsproto's own client as oracle; distinct = distinct (layer, carrier, worker, header-state vector, decision classes, closing order); non-trivial = handshake invalid, or a decision other than a bare accept, or a closing order other than abrupt",
+    "rule": "direct: exhaustive lattice over {connection, upgrade, key, version} x 6 states x HTTP version {1.0, 1.1, 2}, {connection, upgrade, key} x 4 states x version header {ok, bad, absent} x request-line version {1.2, 1.9, 2.0, 3.0, 9.9, 0.9} on the HTTP/1 carrier, random subprotocol/extension offers, application decision sequences up to length 4 over the websocket send alphabet, closing orders {client first (1000, 1001, 3000, no code), application first, simultaneous, abrupt}; e2e: handshake classes (incl. request-line versions 1.2 / 1.9 / 2.0 / 3.0 / 9.9 / 0.9 complete, key-less, bad version header, duplicated Connection / Upgrade; header names per header in lower / Capitalised / UPPER case with h11_pass_raw_headers on and off) x decisions x closing orders x carrier x worker, and the upgrade as the k-th request of its connection below / at keep_alive_max_requests (1, 2, 3) incl. wsproto's own client as oracle; distinct = distinct (layer, carrier, worker, header-state vector, decision classes, closing order); non-trivial = handshake invalid, or a decision other than a bare accept, or a closing order other than abrupt",
     "trusted": ["wsproto client handshake (WSConnection CLIENT) as oracle for an acceptable 101", "h11 / h2 client parsers"],
     "partial": ["duplicated handshake headers whose occurrences disagree and an HTTP/2 `:protocol` other than `websocket` are treated as unspecified by the monitor (the theorems state what the code does: last occurrence wins; `:protocol` is not looked at)"],
-    "assumptions": ["requests are syntactically valid HTTP (h11 / h2 accept them); header names reach the stream lower-cased on both carriers"],
+    "assumptions": ["requests are syntactically valid HTTP (h11 / h2 accept them); header names reach the stream lower-cased on HTTP/2, lower-cased or (h11_pass_raw_headers) as the client wrote them on HTTP/1"],
 }
 
 KEY = b"dGhlIHNhbXBsZSBub25jZQ=="
@@ -48,6 +48,26 @@ VERSION_VALUES = [b"130", b"213", b"1.13", b"013", b"13.0", b"131", b"1313", b"1
 for _v in VERSION_VALUES:
     HVALS["sec-websocket-version"]["v=" + _v.decode()] = [_v]
 VERSION_STATES = ["v=" + _v.decode() for _v in VERSION_VALUES]
+# versions an HTTP/1 request line can state besides 1.1 / 1.0 (h11's pattern is `HTTP/[0-9]\.[0-9]`, it hands the two digits to the
+# server as they are): the HTTP/1.1 handshake rules apply to every one of them that is not below 1.1 (F102: only `1.1` had its
+# key / Connection / Upgrade headers checked, a key-less `HTTP/1.2` upgrade reached the application and was answered 200 + frames)
+H1_VERSIONS = ["1.2", "1.9", "2.0", "3.0", "9.9", "0.9"]
+MULTIPLEXED = ("2", "3")          # what H2Protocol / H3Protocol pass as http_version
+
+
+def carrier_of(version: str) -> str:
+    return "h2" if version in MULTIPLEXED else "h1"
+
+
+def _h1_version_ok(version: str) -> bool:
+    """the request line states HTTP/1.1 or later (numerically; h11 only lets `d.d` through)"""
+    try:
+        major, minor = version.split(".")
+        return (int(major), int(minor)) >= (1, 1)
+    except ValueError:
+        return False
+
+
 NAMES_CASE = {"connection": b"Connection", "upgrade": b"UPGRADE", "sec-websocket-key": b"Sec-WebSocket-Key", "sec-websocket-version": b"Sec-Websocket-VERSION"}
 
 
@@ -84,7 +104,7 @@ def spec_valid(carrier: str, method: str, version: str, headers: List[List[str]]
             return False
         if carrier == "h2":
             return method == "CONNECT" and version == "2" and protocol is not None
-        if method != "GET" or version != "1.1":
+        if method != "GET" or not _h1_version_ok(version):
             return False
         if key is None:
             return False
@@ -231,7 +251,7 @@ def accept_expect(version: str, headers: List[List[str]], d: list) -> dict:
         return {"ok": False, "why": "unoffered_subprotocol"}
     if bad_hdr:
         return {"ok": False, "why": "forbidden_extra_header"}
-    return {"ok": True, "status": 101 if version == "1.1" else 200, "subprotocol": sp, "extra": [[n.strip(), v.strip()] for n, v in d[2]]}
+    return {"ok": True, "status": 200 if version in MULTIPLEXED else 101, "subprotocol": sp, "extra": [[n.strip(), v.strip()] for n, v in d[2]]}
 
 
 def check_accept_headers(got: List[List[str]], exp: dict, key: Optional[str], lean_token: Optional[str], version: str) -> Optional[str]:
@@ -243,14 +263,14 @@ def check_accept_headers(got: List[List[str]], exp: dict, key: Optional[str], le
     if exp["subprotocol"] is not None and sp != [exp["subprotocol"]]:
         return f"subprotocol {sp} != {exp['subprotocol']}"
     tok = [v for n, v in g if n == "sec-websocket-accept"]
-    if version == "1.1":
+    if version not in MULTIPLEXED:
         from wsproto.utilities import generate_accept_token
         want = b2s(generate_accept_token(s2b(key))) if key is not None else None
         if tok != [want]:
             return f"accept token {tok} != {want}"
         if lean_token is not None and tok != [lean_token]:
             return f"accept token {tok} != Lean {lean_token}"
-    if version == "1.1":
+    if version not in MULTIPLEXED:
         # the 101 says `Connection: Upgrade` and nothing else about the connection (RFC 6455 4.2.2 / 4.1: a client fails the
         # handshake without an `upgrade` token; `close` contradicts the switch)
         conn = [[t.strip().lower() for t in v.split(",")] for n, v in g if n == "connection"]
@@ -345,12 +365,12 @@ def run_direct(ctx: Ctx, cases: List[dict]) -> None:
         ctx.evaluations += 1
         init, ops, lib = prepared[i]
         version, headers = case["version"], case["headers"]
-        carrier = "h1" if version in ("1.0", "1.1") else "h2"
+        carrier = carrier_of(version)
         sv = spec_valid(carrier, "GET" if carrier == "h1" else "CONNECT", version, headers)
         att = ws_attempt(carrier, "GET" if carrier == "h1" else "CONNECT", headers)
         # a WSStream is only ever built by H11Protocol for requests that pass its own upgrade test
         reachable = carrier == "h2" or att is True
-        sig0 = {"layer": "direct", "carrier": carrier}
+        sig0 = {"layer": "direct", "carrier": carrier, **({"request_version": version} if carrier == "h1" and version != "1.1" else {})}
         ctx.count("direct.version", version)
         ctx.count("direct.spec_valid", sv)
         ctx.count("direct.closing", case["closing"][0])
@@ -526,7 +546,7 @@ def run_e2e(ctx: Ctx, cases: List[dict]) -> None:
         carrier, headers, version, method = case["carrier"], case["headers"], case["version"], case["method"]
         sv = spec_valid(carrier, method, version, headers, case.get("protocol", "websocket"))
         att = ws_attempt(carrier, method, headers)
-        sig0 = {"layer": "e2e", "carrier": carrier}
+        sig0 = {"layer": "e2e", "carrier": carrier, **({"request_version": version} if carrier == "h1" and version != "1.1" else {})}
         ctx.count("e2e.carrier", carrier)
         ctx.count("e2e.worker", case["worker"])
         ctx.count("e2e.spec_valid", sv)
@@ -554,7 +574,7 @@ def run_e2e(ctx: Ctx, cases: List[dict]) -> None:
                 ctx.violation("invalid_not_400_or_app_started", case, {"status": status, "apps": o["apps"], "goaway": o["h2_goaway"]}, {**sig0, "hclass": case.get("hclass")})
             continue
         nb = case.get("before", 0) if carrier == "h1" else 0
-        if nb or case.get("cfg"):
+        if nb or "keep_alive_max_requests" in (case.get("cfg") or {}):
             ctx.count("e2e.keep_alive_max/before", f"{(case.get('cfg') or {}).get('keep_alive_max_requests')}/{nb}")
         if nb and [(b or {}).get("status") for b in (o.get("before") or [])] != [200] * nb:
             ctx.violation("requests_before_upgrade_not_served", case, o.get("before"), {**sig0, "hclass": case.get("hclass")})
@@ -647,6 +667,41 @@ def e2e_handshakes(rng: random.Random) -> List[dict]:
     for st in VERSION_STATES:
         out.append({"hclass": f"h1:sec-websocket-version={st}", "carrier": "h1", "method": "GET", "version": "1.1", "headers": h1({"sec-websocket-version": st})})
         out.append({"hclass": f"h2:version={st}", "carrier": "h2", "method": "CONNECT", "version": "2", "headers": h2({"sec-websocket-version": st})})
+    # the request line states another version (what h11 lets through): with and without key / version header, duplicated
+    # Connection / Upgrade whose last occurrence counts
+    for ver in H1_VERSIONS:
+        out.append({"hclass": f"h1:http{ver}:complete", "carrier": "h1", "method": "GET", "version": ver, "headers": h1({})})
+        out.append({"hclass": f"h1:http{ver}:complete_case", "carrier": "h1", "method": "GET", "version": ver, "headers": h1({n: "ok_case" for n in HVALS})})
+        out.append({"hclass": f"h1:http{ver}:no_key", "carrier": "h1", "method": "GET", "version": ver, "headers": h1({"sec-websocket-key": "absent"})})
+        out.append({"hclass": f"h1:http{ver}:no_key_no_version", "carrier": "h1", "method": "GET", "version": ver,
+                    "headers": h1({"sec-websocket-key": "absent", "sec-websocket-version": "absent"})})
+        out.append({"hclass": f"h1:http{ver}:version=bad", "carrier": "h1", "method": "GET", "version": ver, "headers": h1({"sec-websocket-version": "bad"})})
+        out.append({"hclass": f"h1:http{ver}:upgrade=dup_bad_ok", "carrier": "h1", "method": "GET", "version": ver, "headers": h1({"upgrade": "dup_bad_ok"})})
+        out.append({"hclass": f"h1:http{ver}:connection=dup_bad_ok,no_key", "carrier": "h1", "method": "GET", "version": ver,
+                    "headers": h1({"connection": "dup_bad_ok", "sec-websocket-key": "absent"})})
+    # header names as the client wrote them reach the stream (`h11_pass_raw_headers`): every header on its own in another case
+    # than the rest, all of them capitalised / upper case; complete and key-less
+    cased = {"lower": lambda n: n, "Cap": lambda n: "-".join(p.capitalize() for p in n.split("-")), "UPPER": lambda n: n.upper()}
+    plain = h1({})
+    hn = ["connection", "upgrade", "sec-websocket-key", "sec-websocket-version"]
+
+    def recase(style: Dict[str, str], drop: Optional[str] = None) -> List[List[str]]:
+        return [[cased[style.get(n, "lower")](n), v] for n, v in plain if n != drop]
+    patterns: List[Tuple[str, Dict[str, str]]] = [("all_Cap", {n: "Cap" for n in hn + ["host"]}), ("all_UPPER", {n: "UPPER" for n in hn + ["host"]})]
+    for n in hn:
+        patterns.append((f"only_{n}_Cap", {n: "Cap"}))
+        patterns.append((f"only_{n}_lower", {**{m: "Cap" for m in hn}, n: "lower"}))
+        patterns.append((f"only_{n}_UPPER", {n: "UPPER"}))
+    for raw in (True, False):
+        for pname, style in patterns:
+            if not raw and not pname.startswith(("all_", "only_upgrade")):
+                continue
+            cfgd = {"cfg": {"h11_pass_raw_headers": True}} if raw else {}
+            tag = "raw" if raw else "normalised"
+            out.append({"hclass": f"h1:names_{tag}:{pname}", "carrier": "h1", "method": "GET", "version": "1.1", "headers": recase(style), **cfgd})
+            if pname.startswith(("all_", "only_upgrade", "only_connection")):
+                out.append({"hclass": f"h1:names_{tag}:{pname}:no_key", "carrier": "h1", "method": "GET", "version": "1.1",
+                            "headers": recase(style, drop="sec-websocket-key"), **cfgd})
     out.append({"hclass": "h1:POST", "carrier": "h1", "method": "POST", "version": "1.1", "headers": h1({})})
     out.append({"hclass": "h1:http1.0", "carrier": "h1", "method": "GET", "version": "1.0", "headers": h1({})})
     out.append({"hclass": "h2:GET", "carrier": "h2", "method": "GET", "version": "2", "headers": h2({}), "protocol": None})
@@ -668,13 +723,25 @@ def run(ctx: Ctx) -> None:
             states = dict(zip(names, combo))
             hs = build_headers(states, rng.choice(OFFERS), rng.choice(EXTS), True)
             dcases.append({"layer": "direct", "version": version, "headers": hs, "states": list(combo), "decisions": gen_decisions(rng), "closing": rng.choice(CLOSINGS)})
+    # every other version an HTTP/1 request line can state: {connection, upgrade, key} x {absent, ok, odd case, bad} x
+    # Sec-WebSocket-Version {ok, bad, absent} (192 handshakes per version; deterministic, first decision sequence an accept so that
+    # a handshake wrongly let through shows as an application started / a 200)
+    for version in H1_VERSIONS:
+        for combo in itertools.product(["absent", "ok", "ok_case", "bad"], repeat=3):
+            for vst in ("ok", "bad", "absent"):
+                states = {"connection": combo[0], "upgrade": combo[1], "sec-websocket-key": combo[2], "sec-websocket-version": vst}
+                hs = build_headers(states, rng.choice(OFFERS), rng.choice(EXTS), True)
+                complete = all(c in ("ok", "ok_case") for c in combo) and vst == "ok"
+                dcases.append({"layer": "direct", "version": version, "headers": hs, "states": [states[n] for n in names],
+                               "decisions": [["accept", None, []]] if not complete else gen_decisions(rng),
+                               "closing": ["abrupt"] if not complete else rng.choice(CLOSINGS)})
     ctx.exhaustive = True
-    ctx.extra["exhaustive_what"] = "direct layer: every combination of {connection, upgrade, sec-websocket-key, sec-websocket-version} x {absent, ok, odd case, bad, duplicated ok/bad, duplicated bad/ok} x HTTP version {1.1, 2, 1.0} (3888 handshakes); every closing order x both carriers after a plain accept"
+    ctx.extra["exhaustive_what"] = "direct layer: every combination of {connection, upgrade, sec-websocket-key, sec-websocket-version} x {absent, ok, odd case, bad, duplicated ok/bad, duplicated bad/ok} x HTTP version {1.1, 2, 1.0} (3888 handshakes); {connection, upgrade, key} x {absent, ok, odd case, bad} x version header {ok, bad, absent} x request-line version {1.2, 1.9, 2.0, 3.0, 9.9, 0.9} (1152); every closing order x both carriers after a plain accept"
     # decisions x closing orders on valid handshakes
     okh = {n: "ok" for n in names}
     for _ in range(ctx.budget(1500, 30000)):
-        version = rng.choice(["1.1", "2"])
-        st = dict(okh) if version == "1.1" else {**{n: "absent" for n in names}, "sec-websocket-version": "ok"}
+        version = rng.choice(["1.1", "1.1", "2", "2", "2", rng.choice([v for v in H1_VERSIONS if _h1_version_ok(v)])])
+        st = dict(okh) if carrier_of(version) == "h1" else {**{n: "absent" for n in names}, "sec-websocket-version": "ok"}
         if rng.random() < 0.2:
             st = {n: rng.choice(["ok", "ok_case"]) if st[n] != "absent" else "absent" for n in names}
         hs = build_headers(st, rng.choice(OFFERS), rng.choice(EXTS), True)
@@ -691,8 +758,8 @@ def run(ctx: Ctx) -> None:
             # … and behind a valid occurrence (the last one counts)
             hs2 = [["host", "x"], ["sec-websocket-version", "13"]] + hs[1:]
             dcases.append({"layer": "direct", "version": version, "headers": hs2, "states": [st[n] for n in names] + ["after_13"], "decisions": [["accept", None, []]], "closing": ["abrupt"]})
-    for version in ("1.1", "2"):
-        st = dict(okh) if version == "1.1" else {**{n: "absent" for n in names}, "sec-websocket-version": "ok"}
+    for version in ("1.1", "2", "1.2", "9.9"):
+        st = dict(okh) if carrier_of(version) == "h1" else {**{n: "absent" for n in names}, "sec-websocket-version": "ok"}
         for cl in CLOSINGS:
             dcases.append({"layer": "direct", "version": version, "headers": build_headers(st, None, None, False), "states": [st[n] for n in names],
                            "decisions": [["accept", None, []]], "closing": cl})
